@@ -183,7 +183,8 @@ fn verdict(t: &WTable, kind: Kind) -> Verdict {
         if kind == Kind::EhFrame && c.version != 1 {
             v.may_refuse = true;
         }
-        if kind == Kind::DebugFrame && c.version == 1 && c.ra > 255 {
+        // version 1 CIEs have a one-byte return address register
+        if c.version == 1 && c.ra > 255 {
             v.may_refuse = true;
         }
         if c.pers.map(|p| enc_refusable(p.0)).unwrap_or(false) || c.lsda_enc.map(enc_refusable).unwrap_or(false) || enc_refusable(c.fde_enc) {
